@@ -117,7 +117,8 @@ def run(ctx):
     if True:
         # focus groups: all ordered pairs within each group (in the
         # thorough tier most of them are part of the full family anyway)
-        for g, allpairs in schemas.FOCUS_GROUPS:
+        for g, allpairs in (schemas.FOCUS_GROUPS +
+                            [(g, True) for g in schemas.PAIR_ONLY_GROUPS]):
             extra = [m for m in g if m not in fam]
             fam = fam + extra
             if allpairs:
